@@ -196,6 +196,19 @@ class Gen:
                 self.ntx += 1
                 t = dict(id="t%d" % self.ntx, signer=self.spent[n][0], ins=[n], outs=[[self.rnd.choice(self.keys), 0]], fee=0, path=[])
                 self.steps.append(dict(op="block", label=lab, parent=parent, gt=True, txs=[t], tag="bad:fork_spends_spent_output", gap=2))
+                # the branch goes on over the poisoned block until it is longer than the chain (it must never win);
+                # sometimes the node is restarted while the poisoned block is only a stored side block
+                par, prev_t = lab, t
+                for j in range(i + 1, d + 1):
+                    if j == d and self.rnd.random() < 0.5:
+                        self.steps.append(dict(op="restart", tag="clean"))
+                    self.nlabel += 1
+                    l2 = "s%d" % self.nlabel
+                    self.ntx += 1
+                    t2 = dict(id="t%d" % self.ntx, signer=prev_t["outs"][0][0], ins=["%s.0" % prev_t["id"]],
+                              outs=[[self.rnd.choice(self.keys), 0]], fee=0, path=[])
+                    self.steps.append(dict(op="block", label=l2, parent=par, gt=True, txs=[t2], tag="fork-on-poisoned", gap=2))
+                    par, prev_t = l2, t2
                 # the node stays on (or returns to) its old chain: restore the generator's view of it
                 self.outs, self.h, self.spent = dict(old_outs), old_h, dict(old_spent)
                 self.chain = old_chain
@@ -319,7 +332,8 @@ class Gen:
             else:
                 self.good_block()
         return dict(g=self.g, hb=self.hb, keys=len(self.keys), issuance=self.issuance,
-                    node_key=node_key or self.node_key or self.keys[0], replica=True, steps=self.steps)
+                    node_key=node_key or self.node_key or self.keys[0],
+                    replica=not any(st.get("op") == "restart" for st in self.steps), steps=self.steps)
 
 
 def dusty_scenario(rnd):
